@@ -655,3 +655,69 @@ def _mut_drop_timeout_call(fn):
             fn.body.remove(s)
             cnt += 1
     return cnt
+
+
+# ------------------------------------------------------------------------------------------------ connect (C14: a failed dial can be retried)
+@unit(name='tcp.connect', relpath=TMOD, qual=['TcpConnection.connect'], props=['C14'],
+      doc='O14.6: connect() either fails - returns False and leaves the connection DISCONNECTED without a descriptor and without a poller '
+          'subscription, so the transport dials again (its reconnect logic skips connections that are not DISCONNECTED) - or starts a dial - '
+          'returns True, state CONNECTING, the descriptor of the new socket subscribed exactly once for READ|WRITE|ERROR with the connection\'s own '
+          'handler; buffers are emptied; in every outcome state != DISCONNECTED implies the descriptor is subscribed',
+      trusted=['T-SOCKET: socket.connect on a non-blocking socket returns, or raises socket.error with some errno (EINPROGRESS/EWOULDBLOCK = dial in progress)'])
+def tcp_connect(ctx):
+    conn, rbuf, wbuf, st, sock0 = mk_conn(ctx)
+    subs = []
+    new_sock = ctx.alloc(PObj('Socket', {}))
+    fileno = FreshInt('newFileno')
+    err = FreshInt('connectErrno')
+    ctx.track('errno of socket.connect', err)
+
+    def sock_connect(I, s, a, k):
+        if ctx.decide(FreshBool('connectRaises'), 'socket-connect-raises'):
+            I.raise_('OSError', errno=err)
+        return None
+    reg = {'Socket.connect': sock_connect, 'Socket.setsockopt': lambda I, s, a, k: None, 'Socket.setblocking': lambda I, s, a, k: None,
+           'Socket.fileno': lambda I, s, a, k: fileno, 'TcpConnection.setSockoptKeepalive': lambda I, s, a, k: None,
+           'Poller.subscribe': lambda I, s, a, k: subs.append(tuple(a))}
+    mod = source.load(TMOD)
+    fn, ci = mod.find('TcpConnection.connect')
+    r0 = dict(REG)
+    r0.update(reg)
+    r0['_getAddrType'] = lambda I, s, a, k: 2       # address family of the host string (AF_INET / AF_INET6): not relevant to the state machine
+    ext = dict(EXT)
+    ext.update({'socket.socket': lambda I, a, k: new_sock})
+    I = Interp(ctx, registry=r0, externals=ext, hooks={'call:cb': cb_hook})
+    host_none = FreshBool('hostIsNone')
+    host = Opt(host_none, Opaque('host', FreshInt('host')))
+    try:
+        r = I.call_funcdef(fn, mod, 'TcpConnection', conn, [host, FreshInt('port')], {}, None, 'TcpConnection.connect')
+        outcome = 'ok'
+    except PyExc as e:
+        outcome, r = e.typ, None
+    ctx.prove(outcome == 'ok', 'C14:O14.6.connect.no-exception', info=outcome)
+    if outcome != 'ok':
+        return
+    c = ctx.cell(conn).fields
+    st1, fn1 = c[TC('state')], c[TC('fileno')]
+    ok = I.truth_expr(r)
+    fn_none = fn1.isnone if isinstance(fn1, Opt) else (fn1 is None)
+    if ctx.decide(host_none, 'host-is-none'):
+        ctx.prove(Not(ok), 'C14:O14.6.connect.no-host-no-dial')
+        ctx.prove(len(subs) == 0, 'C14:O14.6.connect.no-host-no-subscription')
+        return
+    if ctx.decide(ok, 'dial-started'):
+        ctx.prove(st1 == CONNECTING, 'C14:O14.6.connect.dial-started-means-CONNECTING')
+        ctx.prove(len(subs) == 1, 'C14:O14.6.connect.subscribed-exactly-once')
+        if len(subs) == 1:
+            d, h, ev = subs[0][0], subs[0][1], subs[0][2]
+            ctx.prove(And(Not(fn_none), Eq(fn1.val if isinstance(fn1, Opt) else fn1, fileno), Eq(d, fileno)), 'C14:O14.6.connect.subscribed-descriptor-is-the-new-socket')
+            ctx.prove(Eq(ev, 1 | 2 | 4), 'C14:O14.6.connect.subscribed-for-read-write-error', info=repr(ev))
+            from pyvc.interp import BoundMethod
+            ctx.prove(isinstance(h, BoundMethod) and h.name.endswith('__processConnection'), 'C14:O14.6.connect.handler-is-processConnection', info=repr(h))
+        ctx.prove(And(Eq(c[TC('readBuffer')].n, 0), Eq(c[TC('writeBuffer')].n, 0)), 'C14+C13:O14.6.connect.buffers-emptied')
+    else:
+        # the dial failed at once: the connection must be left in a state from which the transport dials again
+        ctx.prove(st1 == DISCONNECTED, 'C14:O14.6.connect.failed-dial-leaves-DISCONNECTED')
+        ctx.prove(len(subs) == 0, 'C14:O14.6.connect.failed-dial-leaves-nothing-subscribed')
+        ctx.prove(fn_none, 'C14:O14.6.connect.failed-dial-leaves-no-descriptor')
+        ctx.prove(Not(Or(err == 115, err == 11)), 'C14:O14.6.connect.in-progress-is-not-a-failure')
